@@ -29,7 +29,7 @@ OUTSIDE = ['wall-clock behaviour of the OS, os.kill failing', 'more than 3 recor
 
 
 def finishes_clean(l0: int, l1: int, l2: int, d0: int, d1: int, d2: int, lag0: int, lag1: int, rate: int,
-                   consume: int, k: int, n: int) -> bool:
+                   consume: int, k: int, n: int, child_first: bool, kill_fails: bool) -> bool:
     """
     pre: _l_ok(l0, l1, l2) and all(_d_ok(d) for d in (d0, d1, d2))
     pre: 0 <= lag0 <= B('LAG') and 0 <= lag1 <= B('LAG') and rate in B('RATES') and 0 <= consume <= 2 and 1 <= k <= 2
@@ -45,16 +45,22 @@ def finishes_clean(l0: int, l1: int, l2: int, d0: int, d1: int, d2: int, lag0: i
     n = len(ids)
     consume = ctx.pick(consume, (0, 1, 2))
     k = ctx.pick(k, (1, 2))
+    child_first = True if child_first else False
+    kill_fails = True if kill_fails else False
     if consume == 0 and k != 1:
         return ctx.done(True)
     mode = [None, ('close', k), ('raise', k)][consume]
     if ctx.BOUNDS.get('DELAYS') is not None:
         with ctx.untraced():
-            out, world, eq, spans, journal = run_world(ids, ['equal'] * n, life, delays, [lag0, lag1], rate, False, mode)
+            out, world, eq, spans, journal = run_world(ids, ['equal'] * n, life, delays, [lag0, lag1], rate, False, mode, child_first, kill_fails)
     else:
-        out, world, eq, spans, journal = run_world(ids, ['equal'] * n, life, delays, [lag0, lag1], rate, False, mode)
+        out, world, eq, spans, journal = run_world(ids, ['equal'] * n, life, delays, [lag0, lag1], rate, False, mode, child_first, kill_fails)
     expected_n = n if mode is None else min(n, k)
-    ok = len(out) == expected_n
+    ok = len(out) == expected_n and not getattr(world, 'hung', None)
+    # the run continues with a fresh worker: a prompt, healthy replay is compared normally whatever happened before it
+    for i, c in enumerate(out):
+        if life[i] == 'ok' and delays[i] + 4 * (lag0 + lag1) <= (TIMEOUT_S - 1) * mpm.TPS:
+            ok = ok and c.comparator_status.equality_status.name == 'Equal'
     # every comparison is delivered within timeout + one poll + the parent's own lags (+ the answer's processing)
     # "within roughly that timeout": twice the timeout plus two polls plus the parent's own lags is still "roughly"
     bound = (2 * TIMEOUT_S + 2) * mpm.TPS + 6 * (lag0 + lag1) + 1
@@ -62,7 +68,10 @@ def finishes_clean(l0: int, l1: int, l2: int, d0: int, d1: int, d2: int, lag0: i
         ok = ok and s <= bound
     for p in world.procs:
         ok = ok and p.served <= rate
-        ok = ok and ((not p.alive) or (p.busy is None and p.terminate.is_set()))
+        if kill_fails and p.alive and p.busy is not None and p.busy[0] == 'hang':
+            continue        # a hung worker that could not be killed is tolerated by the code (and by the property's quantifier)
+        # alive is fine only if it has been told to terminate and is not hung: it exits after what it is doing
+        ok = ok and ((not p.alive) or (p.terminate.is_set() and (p.busy is None or p.busy[0] != 'hang')))
     ok = ok and eq._terminate_process.is_set()
     if any(x in ('hang', 'die', 'die_idle') for x in life):
         ctx.mark('worker-trouble')
